@@ -286,6 +286,13 @@ func checkLimitSentinel(c *core.Ctx) {
 						if core.ReadsObj(info, rs, uniq) {
 							usedInCallback = true
 						}
+						// a callback made by a factory: the factory's parameter that was handed the identifier
+						ast.Inspect(rs, func(k ast.Node) bool {
+							if id, ok := k.(*ast.Ident); ok && litParamAlias(rc.Produce, info.Uses[id]) == uniq.Name() {
+								usedInCallback = true
+							}
+							return true
+						})
 					}
 					return true
 				})
